@@ -702,6 +702,17 @@ func (fr *Frame) enterLoop(st *State, li *loopInfo, run *loopRun) *State {
 	}
 	if fr.parent == nil && fr.fc != nil {
 		for _, gu := range fr.fc.GhostUps {
+			if gu.OnCall != "" {
+				// a ghost updated at calls of X is forgotten at every loop that calls X directly
+				if fr.loopCalls(li, gu.OnCall) {
+					if old, ok := nst.ghost[gu.Name]; ok && old.K == KNormal {
+						nv := fr.fresh("gh_"+gu.Name, old.T)
+						fr.assumeWF(nst, nv)
+						nst.ghost[gu.Name] = nv
+					}
+				}
+				continue
+			}
 			assignedHere := false
 			for _, a := range fr.cellsAssignedIn(li) {
 				if a.Comment == gu.Local {
@@ -957,6 +968,29 @@ func (fr *Frame) loopNested(inner int, li *loopInfo) bool {
 	for _, l2 := range fr.loops {
 		if l2.ordinal == inner {
 			return li.blocks[l2.header]
+		}
+	}
+	return false
+}
+
+// loopCalls: the loop contains a direct call of a function or method with that name.
+func (fr *Frame) loopCalls(li *loopInfo, name string) bool {
+	for b := range li.blocks {
+		for _, in := range b.Instrs {
+			ci, ok := in.(ssa.CallInstruction)
+			if !ok {
+				continue
+			}
+			cc := ci.Common()
+			if cc.IsInvoke() {
+				if cc.Method.Name() == name {
+					return true
+				}
+				continue
+			}
+			if fn := cc.StaticCallee(); fn != nil && fn.Name() == name {
+				return true
+			}
 		}
 	}
 	return false
